@@ -220,3 +220,14 @@ func init() {
 		ruleProtoCorpus(c, r)
 	})
 }
+
+func init() {
+	register("C24", func(c *Ctx, r *Report) {
+		r.Decides("for every value shape PathsFromProto stores (wrapper scalars, enum names, leaf-list slices, union leaf-list members, key strings) the ProtoFromPaths decoder of the same field kind accepts that Go type; enum descriptors are selected by number; key presence is decided by comma-ok lookup; every stored path is resolvedPath(base, schemapath annotation).",
+			"proto.Equal of the reconstructed message for all messages (value-level); kinds the reader documents as unsupported (bool/int wrappers, bytes/int64 union members).")
+		ruleProtomapTables(c, r)
+		ruleEnumByNumber(c, r)
+		ruleKeyPresence(c, r)
+		ruleResultKeys(c, r)
+	})
+}
